@@ -40,7 +40,11 @@ fn fit_hh(f: &str, x: &[f64], y: &[f64], w: Option<&[f64]>, o: Option<&[f64]>, a
         if history == 1 {
             let yr: Vec<f64> = y.iter().rev().cloned().collect();
             g.set_penalty(0.5); g.set_tolerance(1e-3);
-            let _ = g.fit(x, &yr, 100);
+            // (the earlier fit is on a design with one column fewer where there is one to drop, and its results are inspected -
+            // every accessor - before the object is reconfigured: nothing derived from it may survive into the next fit)
+            let n = y.len(); let p = x.len() / n;
+            let ok1 = if p >= 2 { let xr: Vec<f64> = (0..n).flat_map(|i| x[i * p..i * p + p - 1].to_vec()).collect(); let r = g.fit(&xr, &yr, 100).is_ok(); if r { let _ = g.predict(&xr); } r } else { g.fit(x, &yr, 100).is_ok() };
+            if ok1 { let _ = (g.coef().map(|c| c.to_vec()), g.coef_standard_error(), g.coef_covariance_matrix(), g.deviance(), g.dispersion(), g.aic(), g.bic()); }
             g.set_penalty(0.0);
         }
         if history == 2 {
@@ -49,6 +53,7 @@ fn fit_hh(f: &str, x: &[f64], y: &[f64], w: Option<&[f64]>, o: Option<&[f64]>, a
             if let Some(o) = o { g.set_offset(o); }
             g.set_tolerance(tol);
             let _ = g.fit(x, y, 1);
+            let _ = (g.coef().map(|c| c.to_vec()), g.coef_standard_error(), g.coef_covariance_matrix(), g.deviance(), g.dispersion());
         }
         // after history 2 the object is already configured: the retry must use that configuration as it stands
         if history != 2 {
@@ -121,6 +126,15 @@ pub fn replay(cases: &str, verdicts: &str) {
             let has_disp = matches!(fam, "Gaussian" | "QuasiPoisson" | "Gamma");
             let ed = if has_disp { ft.dev / (n - p) as f64 } else { 1.0 };
             v.check((ft.disp - ed).abs() <= 1e-10 * ed.abs().max(1e-300), "dispersion convention", &class, &c, json!({"reported": ft.disp, "expected": ed}));
+        }
+        // the same problem on an object with a history (an inspected earlier fit on a narrower design; a failed fit): every reported
+        // quantity is that of the fresh fit
+        for hist in [1u8, 2] {
+            let rh = fit_hh(fam, &x, &y, wopt, oopt, alpha, 1e-13, 200, hist);
+            let okh = match &rh { Some(Ok(fh)) => rel_ok(&fh.coef, &ft.coef, 1e-8) && rel_ok(&fh.se, &ft.se, 1e-7) && rel_ok(&fh.cov, &ft.cov, 1e-7) && fh.cov.len() == p * p
+                && (fh.dev - ft.dev).abs() <= 1e-8 * ft.dev.abs().max(1e-9) && (fh.disp - ft.disp).abs() <= 1e-8 * ft.disp.abs().max(1e-9) && rel_ok(&fh.pred, &ft.pred, 1e-8), _ => false };
+            v.check(okh, if hist == 1 { "same results after an inspected earlier fit" } else { "same results after a failed fit" }, &class, &c,
+                    json!(match &rh { Some(Ok(fh)) => json!({"se": fjs(&fh.se), "fresh_se": fjs(&ft.se)}), Some(Err(e)) => json!(e), None => json!("panic") }));
         }
         // invariance under reordering the observations
         let perm: Vec<usize> = (0..n).rev().collect();
